@@ -44,15 +44,33 @@ theorem C09_refuse_field_dup {provs : List PSpec} (ret : Nat) (hc : FieldClash p
     ∃ e, newGraph2 provs ret = .error e ∧ DupOrOrphan e :=
   field_dup_refused ret hc
 
-/-- **Orphan struct expansion.** A `Struct[T]()` whose struct type nobody supplies (no function provider lists it
-    and no earlier expansion has it as a field) is refused. -/
-theorem C09_refuse_orphan {provs pre post : List PSpec} {sp : PSpec} (ret : Nat)
-    (hsplit : structsOf provs = pre ++ sp :: post)
+/-- **Orphan struct expansion.** A `Struct[T]()` whose struct type nobody supplies — no function provider lists it
+    and it is not a field type of any expanded struct, *wherever that struct is declared* (struct expansion now
+    iterates to a fixpoint, so the declaration order plays no role) — is refused: with the `orphan` diagnostic of
+    some `Struct` provider that never gets a source (this one, or another one: the first still pending when a round
+    makes no progress), unless an earlier step already failed with a `dup`. -/
+theorem C09_refuse_orphan {provs : List PSpec} {sp : PSpec} (ret : Nat)
+    (hsp : sp ∈ provs) (hk : sp.kind = 1)
     (hnofun : ∀ q ∈ provs, q.kind ≠ 1 → ¬ Lists q sp.structTy)
-    (hnofield : sp.structTy ∉ allFieldTys pre) :
+    (hnofield : sp.structTy ∉ allFieldTys (structsOf provs)) :
     ∃ e, newGraph2 provs ret = .error e ∧
-      (e = .orphan sp.structTy ∨ (∃ t, e = .dup t) ∨ (∃ sp' ∈ pre, e = .orphan sp'.structTy)) :=
-  orphan_refused ret hsplit hnofun hnofield
+      ((∃ sp' ∈ provs, sp'.kind = 1 ∧ ¬ Sourced provs sp'.structTy ∧ e = .orphan sp'.structTy) ∨ (∃ t, e = .dup t)) :=
+  orphan_refused ret hsp hk hnofun hnofield
+
+/-- the same for every `Struct[T]()` that never gets a source (`KV.Sourced`: listed by a function provider, or —
+    recursively — a field type of a `Struct` provider whose own struct type is sourced): this also covers struct
+    expansions that are fields only of each other, or of a struct expansion that is itself an orphan. -/
+theorem C09_refuse_orphan_unsourced {provs : List PSpec} {sp : PSpec} (ret : Nat)
+    (hsp : sp ∈ provs) (hk : sp.kind = 1) (hns : ¬ Sourced provs sp.structTy) :
+    ∃ e, newGraph2 provs ret = .error e ∧
+      ((∃ sp' ∈ provs, sp'.kind = 1 ∧ ¬ Sourced provs sp'.structTy ∧ e = .orphan sp'.structTy) ∨ (∃ t, e = .dup t)) :=
+  orphan_refused_unsourced ret hsp hk hns
+
+/-- conversely, a declaration whose struct expansions are all sourced is never refused as `orphan` by the first two
+    passes: with a field clash the diagnostic is a `dup` -/
+theorem C09_refuse_field_dup_exact {provs : List PSpec} (ret : Nat) (hc : FieldClash provs) (hs : StructsSourced provs) :
+    ∃ t, newGraph2 provs ret = .error (.dup t) :=
+  field_dup_refused_dup ret hc hs
 
 /-- **Reachable cycle (of any length, including a provider requiring its own output, also through expanded
     struct fields).** If a provider reachable from the supplier of the requested type lies on a cycle of the
@@ -75,8 +93,8 @@ theorem C09_accepted_acyclic {provs : List PSpec} {ret : Nat} {p : PlanOut} (h :
     ¬ Path p.g n n :=
   accepted_acyclic h n
 
-/-- **Acceptance.**  A declaration that is unambiguous and whose struct expansions all have a source
-    (`supplierMap` succeeds), whose requested type has a supplier, and whose needed providers contain no cycle is
+/-- **Acceptance.**  A declaration that is unambiguous and whose struct expansions all have a source, in whatever
+    order they are declared (`supplierMap` succeeds; see `KV.supplierMap_ok_iff`), whose requested type has a supplier, and whose needed providers contain no cycle is
     accepted by the planner.  (The hypothesis that the requested type has a supplier is the recorded finding
     `identity-injector-refused`.) -/
 theorem C09_accept {provs0 : List PSpec} {ret : Nat} {provs : List PSpec} {sup : SupMap} {rp ri : Nat}
